@@ -4,6 +4,11 @@ pub mod c01;
 pub mod c02;
 pub mod c03;
 pub mod c05;
+pub mod c06;
+pub mod c07;
+pub mod c09;
+pub mod c10;
+pub mod c12;
 
 pub fn all() -> Vec<(&'static str, fn() -> PropertyDef)> {
     vec![
@@ -11,5 +16,10 @@ pub fn all() -> Vec<(&'static str, fn() -> PropertyDef)> {
         ("C02", c02::def as fn() -> PropertyDef),
         ("C03", c03::def as fn() -> PropertyDef),
         ("C05", c05::def as fn() -> PropertyDef),
+        ("C06", c06::def as fn() -> PropertyDef),
+        ("C07", c07::def as fn() -> PropertyDef),
+        ("C09", c09::def as fn() -> PropertyDef),
+        ("C10", c10::def as fn() -> PropertyDef),
+        ("C12", c12::def as fn() -> PropertyDef),
     ]
 }
